@@ -86,8 +86,8 @@ func Corpus() []CorpusCase {
 			&Property{Name: "byName", Optional: true, F: &Field{Kind: "map", Item: obj(prop("v", str("string")))}},
 			&Property{Name: "note", Optional: true, F: str("string")},
 			prop("plain", &Field{Kind: "array", Item: str("string")}))))
-	// known finding (C02): a FIRST option ending in UNSPECIFIED under a name of its own is taken as the zero
-	// value: STATUS_OLD_UNSPECIFIED = 0, STATUS_ACTIVE = 1 - no STATUS_UNSPECIFIED, options numbered from 0
+	// regression (fix a65e1f2): a FIRST option ending in UNSPECIFIED under a name of its own was taken as the zero
+	// value (STATUS_OLD_UNSPECIFIED = 0, STATUS_ACTIVE = 1 - no STATUS_UNSPECIFIED, options numbered from 0)
 	add("enum-first-option-named-unspecified", "foo.v1", file(foo, "a",
 		&Element{Kind: "enum", N: &Nested{Kind: "enum", Name: "Status", Enum: &Enum{Name: "Status", Opts: []string{"OLD_UNSPECIFIED", "ACTIVE"}}}},
 		// the zero value spelled out with the prefix on: documented, not the finding
@@ -244,13 +244,13 @@ func EditCorpus() []EditPair {
 			{"option", "foo/v1/a.j5s:Status", "INACTIVE", "EAppendOption 0 1 " + S("INACTIVE"), ""}}, false},
 		// defect: the appended inline type Foo.Foo captures the relative name Foo.X of the existing field
 		{mk(), mk(fooP), "foo.v1", []EditRec{{"field", "foo/v1/a.j5s:Foo", "foo objinline", "EAppendIn 0 0 AtDecl [] (AField " + fooP.Coq() + ")", ""}}, false},
-		// known finding: an enum without options; the appended option is its first, ends in UNSPECIFIED
-		// and therefore replaces the implicit zero value STATUS_UNSPECIFIED by STATUS_OLD_UNSPECIFIED
+		// regression (fix a65e1f2): an enum without options; the appended option is its first, ends in UNSPECIFIED
+		// and used to replace the implicit zero value STATUS_UNSPECIFIED by STATUS_OLD_UNSPECIFIED
 		{emptyEnum(), emptyEnum("OLD_UNSPECIFIED"), "foo.v1",
-			[]EditRec{{"option", "foo/v1/a.j5s:Status", "OLD_UNSPECIFIED", "EAppendOption 0 0 " + S("OLD_UNSPECIFIED"), ""}}, true},
-		// the known finding at depth: an enum without options nested in an object, the option appended through an address
+			[]EditRec{{"option", "foo/v1/a.j5s:Status", "OLD_UNSPECIFIED", "EAppendOption 0 0 " + S("OLD_UNSPECIFIED"), ""}}, false},
+		// the same at depth: an enum without options nested in an object, the option appended through an address
 		{nestedEmptyEnum(), nestedEmptyEnum("OLD_UNSPECIFIED"), "foo.v1",
-			[]EditRec{{"option", "foo/v1/a.j5s:Foo.Status", "OLD_UNSPECIFIED", "EAppendIn 0 0 AtDecl [SNested 0] (AOption " + S("OLD_UNSPECIFIED") + ")", ""}}, true},
+			[]EditRec{{"option", "foo/v1/a.j5s:Foo.Status", "OLD_UNSPECIFIED", "EAppendIn 0 0 AtDecl [SNested 0] (AOption " + S("OLD_UNSPECIFIED") + ")", ""}}, false},
 		// seeded C13-D class, deterministic: a field referring to the type of the implicit leading field appended to
 		// a reqres request message / an upsert message (the implicit field must keep number 1, the old fields theirs)
 		{topicBundle("reqres", nil), topicBundle("reqres", fwd), "foo.v1",
